@@ -181,7 +181,12 @@ def systematic_blocks(p_mod: int = 1, p_rot: int = 0) -> Tuple[List[dict], Dict[
                 np_ += 1
     counts["P"] = np_
     counts["Q"] = nq
-    return hs, counts
+    # the core blocks first; P (the long tail of cross-area pairs) afterwards, interleaved with
+    # the random histories by make_history
+    core = [h for h in hs if h["block"] != "P"]
+    tail = [h for h in hs if h["block"] == "P"]
+    counts["core"] = len(core)
+    return core + tail, counts
 
 
 _SYS: Dict[tuple, tuple] = {}
@@ -189,6 +194,8 @@ _SYS: Dict[tuple, tuple] = {}
 # quick tier runs 1/P_MOD_QUICK of the cross-area block P (which sixteenth rotates with VERIF_SEED);
 # the thorough tier runs all of it
 P_MOD_QUICK = 24
+# random histories interleaved 1:1 with block P (the rest of the longer one follows)
+RANDOM_PER_TIER = {"quick": 1500, "thorough": 150000}
 
 
 def systematic(tier: str = "quick", batch: int = 0) -> Tuple[List[dict], Dict[str, int]]:
@@ -236,11 +243,21 @@ def random_history(seed: int, tier: str) -> dict:
 
 
 def make_history(index: int, seed: int, tier: str, batch: int = 0) -> dict:
-    sys_h, _ = systematic(tier, batch)
-    if index < len(sys_h):
+    sys_h, counts = systematic(tier, batch)
+    n_core = counts["core"]
+    if index < n_core:
         h = dict(sys_h[index])
     else:
-        h = random_history(seed, tier)
+        # beyond the core: even offsets walk block P while it lasts, odd offsets are random
+        k = index - n_core
+        n_p = len(sys_h) - n_core
+        n_r = RANDOM_PER_TIER[tier]
+        if k < 2 * min(n_p, n_r):
+            h = dict(sys_h[n_core + k // 2]) if k % 2 == 0 else random_history(seed, tier)
+        elif n_p > n_r and k - n_r < n_p:
+            h = dict(sys_h[n_core + k - n_r])
+        else:
+            h = random_history(seed, tier)
     h["seed"] = seed
     return h
 
